@@ -345,7 +345,14 @@ func (p *player) Bet(chips int64) error {
 
 	p.pay(chips, true)
 
-	p.game.GetState().Status.PreviousRaiseSize = chips
+	// The size of the bet is what has actually been wagered: a player who bets
+	// more than the stack is all-in for less
+	betSize := chips
+	if betSize > p.state.Wager {
+		betSize = p.state.Wager
+	}
+
+	p.game.GetState().Status.PreviousRaiseSize = betSize
 
 	p.game.UpdateLastAction(p.idx, "bet", chips)
 
